@@ -1,13 +1,16 @@
 /* C01/C02 harness: the notify operations of the real libsc on the simulated MPI.
    stdin per run:
      header: <P> <seed> <adversary> <type> <ntop> <nint> <nbot> <nranges> <ncalls> <sorted> <sep_senders> <paymode> <paysize>
-             <sep_payload> <threshold> <api> <superseed> <barrier>
+             <sep_payload> <threshold> <api> <superseed> <barrier> [<reuse>]
        type 0..8 (sc_notify_type_t order: allgather binary nary pex pcx rsx nbx ranges superset)
        paymode 0 none, 1 fixed-size item per receiver (paysize bytes), 2 variable slices (paysize = item size)
        sep_senders / sep_payload: 1 = separate output arrays, 0 = in place (NULL output argument)
        api 0: sc_notify_payload/payloadv with a notify object; 1: legacy sc_notify (binary), 2: sc_notify_allgather,
            3: sc_notify_ext; 4: sc_notify_nary
        barrier 1: MPI_Barrier between consecutive calls
+       reuse 0 (default): fresh output arrays for every call; 1: the caller's output arrays (senders, out_payload, out_offsets)
+             are created once and reused, unreset, for all calls of the case (a time loop); 2: as 1 and filled with junk
+             elements before the first call
      then for call c = 0..ncalls-1 and rank r = 0..P-1 one line: <n> <rcv_1> .. <rcv_n> [<len_1> .. <len_n> for paymode 2]
    Payload bytes are a fixed function of (call, sender, receiver, index) so that the oracle can recompute them.
    stdout: OUT <call> <rank> <nsenders> <s_1> ... | <payload hex or -> | <offsets or ->    */
@@ -17,7 +20,7 @@
 
 typedef struct { int n; int *rcv; int *len; } item_t;
 typedef struct {
-  int P, type, ntop, nint, nbot, nranges, ncalls, sorted, sep_senders, paymode, paysize, sep_payload, api, barrier;
+  int P, type, ntop, nint, nbot, nranges, ncalls, sorted, sep_senders, paymode, paysize, sep_payload, api, barrier, reuse;
   long threshold; unsigned superseed;
   item_t *items;                /* [call][rank] */
   char *outbuf; size_t outlen, outcap;
@@ -74,17 +77,27 @@ static void rank_main (int rank, int size, void *varg)
     if (a->type == SC_NOTIFY_RANGES) sc_notify_ranges_set_num_ranges (notify, a->nranges);
     if (a->type == SC_NOTIFY_SUPERSET) sc_notify_superset_set_callback (notify, compute_superset, NULL);
   }
+  /* output arrays owned by the caller and kept over all calls of the case (reuse != 0) */
+  sc_array_t *keep_senders = NULL, *keep_out_pay = NULL, *keep_out_off = NULL;
+  if (a->reuse && a->api != 1 && a->api != 2) {
+    size_t junk = a->reuse == 2 ? 3 : 0;
+    if (a->sep_senders) { keep_senders = sc_array_new_count (sizeof (int), junk); if (junk) memset (keep_senders->array, 0x5a, junk * sizeof (int)); }
+    if (a->paymode && a->sep_payload) {
+      keep_out_pay = sc_array_new_count ((size_t) a->paysize, junk); if (junk) memset (keep_out_pay->array, 0x5b, junk * (size_t) a->paysize);
+      if (a->paymode == 2) { keep_out_off = sc_array_new_count (sizeof (int), junk); if (junk) memset (keep_out_off->array, 0x5c, junk * sizeof (int)); }
+    }
+  }
   for (int c = 0; c < a->ncalls; ++c) {
     item_t *it = &a->items[(size_t) c * a->P + rank];
     a->curcall[rank] = c;
     sc_array_t *receivers = sc_array_new_count (sizeof (int), (size_t) it->n);
-    sc_array_t *senders = a->sep_senders ? sc_array_new (sizeof (int)) : NULL;
+    sc_array_t *senders = a->sep_senders ? (keep_senders ? keep_senders : sc_array_new (sizeof (int))) : NULL;
     sc_array_t *in_pay = NULL, *out_pay = NULL, *in_off = NULL, *out_off = NULL;
     if (it->n > 0) memcpy (receivers->array, it->rcv, it->n * sizeof (int));
     if (a->paymode == 1) {
       in_pay = sc_array_new_count ((size_t) a->paysize, (size_t) it->n);
       for (int i = 0; i < it->n; ++i) for (int k = 0; k < a->paysize; ++k) in_pay->array[(size_t) i * a->paysize + k] = (char) pay_byte (c, rank, it->rcv[i], k);
-      if (a->sep_payload) out_pay = sc_array_new ((size_t) a->paysize);
+      if (a->sep_payload) out_pay = keep_out_pay ? keep_out_pay : sc_array_new ((size_t) a->paysize);
     }
     else if (a->paymode == 2) {
       int tot = 0;
@@ -96,7 +109,7 @@ static void rank_main (int rank, int size, void *varg)
         int o = ((int *) in_off->array)[i];
         for (int k = 0; k < it->len[i] * a->paysize; ++k) in_pay->array[(size_t) o * a->paysize + k] = (char) pay_byte (c, rank, it->rcv[i], k);
       }
-      if (a->sep_payload) { out_pay = sc_array_new ((size_t) a->paysize); out_off = sc_array_new (sizeof (int)); }
+      if (a->sep_payload) { out_pay = keep_out_pay ? keep_out_pay : sc_array_new ((size_t) a->paysize); out_off = keep_out_off ? keep_out_off : sc_array_new (sizeof (int)); }
     }
     if (a->api == 0) {
       if (a->paymode == 2) sc_notify_payloadv (receivers, senders, in_pay, out_pay, in_off, out_off, a->sorted, notify);
@@ -133,13 +146,16 @@ static void rank_main (int rank, int size, void *varg)
       emit (a, "\n", 1);
     }
     sc_array_destroy (receivers);
-    if (senders) sc_array_destroy (senders);
+    if (senders && senders != keep_senders) sc_array_destroy (senders);
     if (in_pay) sc_array_destroy (in_pay);
-    if (out_pay) sc_array_destroy (out_pay);
+    if (out_pay && out_pay != keep_out_pay) sc_array_destroy (out_pay);
     if (in_off) sc_array_destroy (in_off);
-    if (out_off) sc_array_destroy (out_off);
+    if (out_off && out_off != keep_out_off) sc_array_destroy (out_off);
     if (a->barrier && c + 1 < a->ncalls) sc_MPI_Barrier (sc_MPI_COMM_WORLD);
   }
+  if (keep_senders) sc_array_destroy (keep_senders);
+  if (keep_out_pay) sc_array_destroy (keep_out_pay);
+  if (keep_out_off) sc_array_destroy (keep_out_off);
   if (notify) sc_notify_destroy (notify);
 }
 
@@ -155,8 +171,8 @@ int main (void)
   while (fgets (line, sizeof line, stdin)) {
     arg_t a; int adv; unsigned long seed;
     memset (&a, 0, sizeof a);
-    if (sscanf (line, "%d %lu %d %d %d %d %d %d %d %d %d %d %d %d %ld %d %u %d", &a.P, &seed, &adv, &a.type, &a.ntop, &a.nint, &a.nbot, &a.nranges,
-                &a.ncalls, &a.sorted, &a.sep_senders, &a.paymode, &a.paysize, &a.sep_payload, &a.threshold, &a.api, &a.superseed, &a.barrier) < 18) continue;
+    if (sscanf (line, "%d %lu %d %d %d %d %d %d %d %d %d %d %d %d %ld %d %u %d %d", &a.P, &seed, &adv, &a.type, &a.ntop, &a.nint, &a.nbot, &a.nranges,
+                &a.ncalls, &a.sorted, &a.sep_senders, &a.paymode, &a.paysize, &a.sep_payload, &a.threshold, &a.api, &a.superseed, &a.barrier, &a.reuse) < 18) continue;
     size_t nit = (size_t) a.ncalls * a.P;
     a.items = (item_t *) calloc (nit + 1, sizeof (item_t));
     for (size_t k = 0; k < nit; ++k) {
